@@ -1127,6 +1127,14 @@ func execCrypto(c CCase) cresult {
 				if o.V {
 					rpl = RotV{W: rp.W, Salt: rp.Salt, Info: rp.Info}
 				}
+				if o.EWI {
+					// a rotation payload that ALSO has an event id (RotateWrapper + EventWrapperInfo): still a rotation payload
+					if o.V {
+						rpl = RotEwiV{W: rp.W, Salt: rp.Salt, Info: rp.Info, ID: "Ev-1"}
+					} else {
+						rpl = &RotEwi{W: rp.W, Salt: rp.Salt, Info: rp.Info, ID: "Ev-1"}
+					}
+				}
 				out, err := f.Process(ctx, &el.Event{Type: "t", CreatedAt: fixedTime, Payload: rpl})
 				// the payload's own slices are scribbled over afterwards: the filter must not have kept them
 				for _, b := range [][]byte{rp.Salt, rp.Info} {
@@ -1971,7 +1979,7 @@ func (g *gen) cryptoCase(n int) CCase {
 			c.Ops = append(c.Ops, COp{K: "rotate", W: w, Pool: g.pool(w), S: comp(), I: comp(), Nil: r.Chance(1, 5), Rep: r.Chance(1, 5)})
 		case x < 4:
 			w := r.Intn(nWrappers + 1)
-			c.Ops = append(c.Ops, COp{K: "rotpayload", W: w, Pool: g.pool(w), S: comp(), I: comp(), V: r.Chance(1, 4)})
+			c.Ops = append(c.Ops, COp{K: "rotpayload", W: w, Pool: g.pool(w), S: comp(), I: comp(), V: r.Chance(1, 4), EWI: r.Chance(1, 4)})
 		default:
 			o := COp{K: "event", S: -1, I: -1, Data: []int{pick(), pick(), pick(), pick(), pick()}}
 			if r.Chance(1, 7) {
